@@ -9,6 +9,7 @@ import (
 	"verifharness/internal/c06"
 	"verifharness/internal/c10"
 	"verifharness/internal/c12"
+	"verifharness/internal/c08"
 	"verifharness/internal/c14"
 	"verifharness/internal/c15"
 	"verifharness/internal/c16"
@@ -24,6 +25,7 @@ var subs = map[string]sub{
 	"c06": c06.Run,
 	"c10": c10.Run,
 	"c12": c12.Run,
+	"c08": c08.Run,
 	"c14": c14.Run,
 	"c15": c15.Run,
 	"c16": c16.Run,
